@@ -340,6 +340,9 @@ class ODLDecoder(PVLDecoder):
             if match is not None:
                 gd = match.groupdict(default=0)
                 dt = super().decode_datetime(gd["dt"])
+                if not hasattr(dt, "tzinfo"):
+                    # A date (or leap second text) cannot take an offset.
+                    raise ValueError
                 offset = timedelta(
                     hours=int(gd["hour"]), minutes=int(gd["minute"])
                 )
